@@ -250,7 +250,7 @@ ssize_t write (int fd, const void *buf, size_t n)
         usleep (*write_jitter % 400);
       errno = e;
     }
-  else if (fd == gate_wfd && gate_wfd >= 0 && console_jitter)
+  else if (fd == gate_wfd && gate_wfd >= 0 && __atomic_load_n (&console_jitter, __ATOMIC_RELAXED))
     {
       /* mt console: the worker thread (created by the library) pauses right after it rang the doorbell, so the backend
        * sees the completion before the worker's next statement runs */
@@ -1585,7 +1585,7 @@ static void mt_console (int nlines, int mode, uint64_t seed)
   fd_.sent = 0, fd_.consumed = 0;
   /* console_worker.c posts through the EPOLL back end (it is linked against libasync), so this run always uses it */
   set_gate_fds ();
-  console_jitter = seed | 1;
+  __atomic_store_n (&console_jitter, seed | 1, __ATOMIC_RELEASE);
   cw_ = use_poll ? 0 : console_worker_init (rt, lq, CONSOLE_COMPLETION_KEY);
   if (!cw_ || !cw_->worker)
     {
@@ -1717,7 +1717,7 @@ static void mt_console (int nlines, int mode, uint64_t seed)
     emit ("mt console ok");
   console_worker_destroy (cw_);
 out:
-  console_jitter = 0;
+  __atomic_store_n (&console_jitter, (uint64_t) 0, __ATOMIC_RELEASE);
   dup2 (saved_stdin, 0);
   close (saved_stdin);
   if (pfd[1] >= 0)
